@@ -124,8 +124,9 @@ type retInfo struct {
 }
 
 type deferred struct {
-	call  *ssa.Defer
-	guard string
+	call   *ssa.Defer
+	guard  string
+	inLoop bool // registered inside a loop: runs an unknown number of times at exit
 }
 
 func (vc *VC) newFrame(fn *ssa.Function, spec *FuncSpec, top bool, guard string, depth int) *frame {
@@ -427,10 +428,46 @@ func (vc *VC) assumeTypeInv(term string, t types.Type, guard, top string) {
 // invariantClauses returns the user invariants plus the free range-loop one.
 func (f *frame) invariantClauses(li *loopInfo) []*Clause {
 	var cs []*Clause
+	if _, _, ok := rangeLoopParts(li.header); ok {
+		// every range-over-slice loop gets its index bounds for free (they are
+		// still checked like any invariant)
+		cs = append(cs, &Clause{Kind: "invariant", Tag: "auto.range", Text: "-1 <= $i && ($i == -1 || $i < n)   [automatic for range loops]"})
+	}
 	if li.spec != nil {
 		cs = append(cs, li.spec.Invariants...)
 	}
 	return cs
+}
+
+// rangeLoopParts recognises the header of a range-over-slice loop:
+//
+//	i = phi [-1, next] #rangeindex ; next = i + 1 ; if next < n goto body else done
+func rangeLoopParts(h *ssa.BasicBlock) (phi *ssa.Phi, n ssa.Value, ok bool) {
+	for _, ins := range h.Instrs {
+		p, isPhi := ins.(*ssa.Phi)
+		if !isPhi {
+			break
+		}
+		if p.Comment == "rangeindex" {
+			phi = p
+		}
+	}
+	if phi == nil {
+		return nil, nil, false
+	}
+	iff, isIf := h.Instrs[len(h.Instrs)-1].(*ssa.If)
+	if !isIf {
+		return nil, nil, false
+	}
+	cmp, isCmp := iff.Cond.(*ssa.BinOp)
+	if !isCmp || cmp.Op != token.LSS {
+		return nil, nil, false
+	}
+	inc, isInc := cmp.X.(*ssa.BinOp)
+	if !isInc || inc.Op != token.ADD || inc.X != phi {
+		return nil, nil, false
+	}
+	return phi, cmp.Y, true
 }
 
 // loopEnv builds the spec environment at loop header b. predIdx selects the
@@ -485,6 +522,16 @@ func (f *frame) loopEnv(li *loopInfo, b *ssa.BasicBlock, predIdx int, st *State)
 }
 
 func (f *frame) evalInvariant(li *loopInfo, b *ssa.BasicBlock, predIdx int, c *Clause, st *State) string {
+	if c.Tag == "auto.range" {
+		phi, n, _ := rangeLoopParts(b)
+		var iv string
+		if predIdx >= 0 {
+			iv = f.val(phi.Edges[predIdx]).T
+		} else {
+			iv = f.val(phi).T
+		}
+		return And(App("<=", "(- 1)", iv), Or(Eq(iv, "(- 1)"), App("<", iv, f.val(n).T)))
+	}
 	env := f.loopEnv(li, b, predIdx, st)
 	v := f.vc.evalSpec(env, c.Expr)
 	return v.T
@@ -492,13 +539,19 @@ func (f *frame) evalInvariant(li *loopInfo, b *ssa.BasicBlock, predIdx int, c *C
 
 func (f *frame) checkInvariants(li *loopInfo, h *ssa.BasicBlock, predIdx int, guard string, st *State, when string, hd *hdrInfo) {
 	vc := f.vc
-	if li.spec == nil && f.top {
+	if li.spec == nil && f.top && len(f.invariantClauses(li)) == 0 {
 		vc.unsupported("loop %d of %s has no invariant block", li.ordinal, FuncName(f.fn))
 	}
 	for _, c := range f.invariantClauses(li) {
 		t := f.evalInvariant(li, h, predIdx, c, st)
 		if f.top {
-			vc.oblige("invariant-"+when, fmt.Sprintf("loop%d.%d", li.ordinal, c.Idx), guard, t, fmt.Sprintf("%s:%d", strings.TrimPrefix(c.File, "/repo/"), c.Line), c.Text)
+			anchor := fmt.Sprintf("loop%d.%d", li.ordinal, c.Idx)
+			pos := fmt.Sprintf("%s:%d", strings.TrimPrefix(c.File, "/repo/"), c.Line)
+			if c.Tag != "" {
+				anchor = fmt.Sprintf("loop%d.%s", li.ordinal, c.Tag)
+				pos = ""
+			}
+			vc.oblige("invariant-"+when, anchor, guard, t, pos, c.Text)
 		}
 	}
 	if when == "preserved" && hd != nil && hd.measure != "" && f.top {
